@@ -239,6 +239,7 @@ func init() {
 				total := (n + 503) / 504
 				for k := 1; k <= total+1; k++ {
 					emit(Case{Line: fmt.Sprintf("wf %d %d", n, k), Kind: "write-failure"})
+					emit(Case{Line: fmt.Sprintf("wf %d %d full", n, k), Kind: "write-failure-full-count"})
 				}
 			}
 			// channel level: result sets over the data types of the fields group, cut at every offset (quick: a
@@ -318,6 +319,17 @@ func init() {
 			n, _ := strconv.Atoi(f[1])
 			k, _ := strconv.Atoi(f[2])
 			total := (n + 503) / 504
+			if len(f) == 4 { // the failing write reports the full count together with the error
+				switch {
+				case strings.Contains(out, "panic") || strings.Contains(out, "blocked"):
+					return "a failing request write neither crashes nor blocks the caller"
+				case k <= total && out != fmt.Sprintf("send=err packets=%d", k):
+					return "a failing request write is reported as an error (also when the transport reports the full count with it) and nothing is written after it"
+				case k > total && out != fmt.Sprintf("send=ok packets=%d", total):
+					return "a request whose writes all succeed is sent completely"
+				}
+				return ""
+			}
 			switch {
 			case strings.Contains(out, "panic") || strings.Contains(out, "blocked"):
 				return "a failing request write neither crashes nor blocks the caller"
@@ -481,13 +493,14 @@ func wfImpl(line string) (out string) {
 		}
 	}()
 	f := strings.Fields(line)
-	if len(f) != 3 {
+	if len(f) != 3 && !(len(f) == 4 && f[3] == "full") {
 		return "bad-op"
 	}
 	n, _ := strconv.Atoi(f[1])
 	k, _ := strconv.Atoi(f[2])
 	mc := newMemConn()
 	mc.failWriteAt = k
+	mc.failFull = len(f) == 4
 	conn, _ := tds.VerifNewConn(context.Background(), mc, testInfo(), false)
 	defer conn.VerifCancel()
 	ch := conn.VerifNewChannel(0)
